@@ -31,6 +31,23 @@ def validate(scr, fam, behs, seed, tier, props, tag):
     lines = read_ndjson(tr_path)
     if not lines:
         raise Broken("driver recorded no trace lines")
+    if fam.get("partition"):
+        # one TLC validation per partition (e.g. per storage back end: different spec constants)
+        merged = dict(viol=[], drift=[], panic=[], note=[], done=[0, 0, 0, 0, 0], wall=0)
+        keyfn, consts_by_key = fam["partition"]
+        groups = {}
+        for l in lines:
+            groups.setdefault(keyfn(l), []).append(l)
+        for key, ls in sorted(groups.items()):
+            pth = scr.path("trace_%s_%s.ndjson" % (tag, key))
+            write_ndjson(pth, ls)
+            consts = dict(fam["trace_consts"])
+            consts.update(consts_by_key[key])
+            r = run_trace(scr, fam["trace_module"], trace_cfg(consts, props, fam.get("trace_extra", "")), pth, expect_lines=len(ls))
+            for k in ("viol", "drift", "panic", "note"):
+                merged[k] += r[k]
+            merged["done"] = [a + b for a, b in zip(merged["done"], r["done"])]
+        return merged, lines
     res = run_trace(scr, fam["trace_module"], trace_cfg(fam["trace_consts"], props, fam.get("trace_extra", "")),
                     tr_path, expect_lines=len(lines))
     return res, lines
@@ -182,6 +199,8 @@ def _check(prop, fam, tier, seed, replay, scr, t0):
         known_findings_hit=known_hit,
         exhaustive=False,
     )
+    if fam.get("post"):
+        reported += fam["post"](prop, tier, int(seed), scr, coverage, known)
     write_evidence(prop, tier, seed, fam.get("level", "model_checking"), coverage, time.time() - t0, reported,
                    fam.get("assumptions", []))
     return 1 if reported else 0
